@@ -15,14 +15,28 @@ def declare(reg):
                      "dotdot-only-leading": "implies(not (result == '..' or result.startswith('../')), not ('/../' in result) and not result.endswith('/..'))",
                  }, **T, note="A-OS: posixpath.normpath collapses '.', '' and 'x/..'; '..' remains only at the start of a relative path")
     P = "asimap/parse.py"
-    reg.contract(P, "IMAPClientCommand._p_simple_string", params={"self": "ref:IMAPClientCommand", "string": "str", "silent": "bool"}, ret="opt[str]",
-                 raises={"NoMatch": None}, **T, note="parser primitive: any outcome assumed (the confinement proof must hold for every token)")
+    # the fixed-token matcher every command parser is built from (C08): it consumes exactly the token, only when the input starts with it
+    # (case-insensitively unless told otherwise), and otherwise leaves the input alone
+    reg.specfn("tok_match", "inp: str, tok: str, cs: bool", "bool",
+               "len(inp) >= len(tok) and ite(cs, inp[:len(tok)] == tok, inp[:len(tok)].lower() == tok.lower())")
+    reg.contract(P, "IMAPClientCommand._p_simple_string",
+                 params={"self": "ref:IMAPClientCommand", "string": "str", "silent": "bool", "swallow": "bool", "case_matters": "bool", "syntax_error": "opt[str]"}, ret="opt[str]",
+                 ensures={
+                     "none-iff-no-match": "is_none(result) == (not tok_match(old(self.input), string, case_matters))",
+                     "token-returned": "implies(not is_none(result), some(result) == ite(case_matters, string, string.lower()))",
+                     "exactly-the-token-consumed": "self.input == ite(not is_none(result) and swallow, old(self.input)[len(string):], old(self.input))",
+                 },
+                 raises={"NoMatch": "not silent and not tok_match(self.input, string, case_matters)"},
+                 exc_ensures={"input-kept": "self.input == old(self.input)"},
+                 modifies=["self.input"],
+                 props=["C08"])
     reg.contract(P, "IMAPClientCommand._p_astring", params={"self": "ref:IMAPClientCommand"}, ret="str",
-                 raises={"NoMatch": None, "BadSyntax": None, "BadLiteral": None}, **T, note="parser primitive: returns an arbitrary string")
+                 raises={"NoMatch": None, "BadSyntax": None, "BadLiteral": None}, modifies=["self.input"], **T, note="parser primitive: returns an arbitrary string")
     reg.contract(
         P, "IMAPClientCommand._p_mailbox", params={"self": "ref:IMAPClientCommand"}, ret="str",
         ensures={"confined": "result == '' or safe_rel(rel_name(result))"},
         raises={"NoMatch": None, "BadSyntax": None, "BadLiteral": None},
+        modifies=["self.input"],
         props=["C09", "C08"],
         ghost={"harness": "harness.confine:ParserNames", "call_asserts": {"_p_simple_string": {
             # C08 (d): the case-insensitive INBOX matcher is consulted only when the five letters are a whole token
